@@ -42,7 +42,7 @@ BASE = dict(
     infeasible_prob=15, debug_prob=0, nl_forms=[("NC", 1)], dict_family=0,
     limit_pats=[("le", 4), ("ge", 3), ("two", 4), ("eq", 2), ("free", 1)],
 )
-KINDS = ["fixed", "array", "dict", "split", "splitlin", "merge", "order", "scale", "lin", "sharefun", "forms"]
+KINDS = ["fixed", "array", "dict", "split", "splitlin", "merge", "order", "scale", "lin", "sharefun", "forms", "nanlim"]
 
 
 def budget(tier):
@@ -99,6 +99,13 @@ def strategy_c10(draw):
     if kind == "forms":
         prof["max_lin"] = 3
         prof["bound_pats"] = [("free", 2), ("lower", 2), ("upper", 1), ("two", 4), ("fixed", 1)]
+    if kind == "nanlim":
+        # undefined entries are neutralised: a NaN limit (or bound) means no limit on that side - the
+        # statement with NaN and the one with -inf / +inf in its place are the same problem
+        prof["max_lin"] = 3
+        prof["min_nl"] = 0
+        prof["bound_pats"] = [("free", 2), ("lower", 1), ("upper", 1), ("two", 3), ("nanl", 3), ("nanu", 3)]
+        prof["limit_pats"] = [("le", 2), ("ge", 2), ("two", 3), ("eq", 1), ("nanl", 4), ("nanu", 4)]
     base = draw(S.problems(prof))
     out = {"kind": kind, "base": base, "probe": [draw(st.integers(-64, 64)) for _ in range(12)]}
     if kind == "forms":
@@ -138,6 +145,28 @@ def restate(kind, base, forms=None):
     if kind == "array":
         a["bounds_form"], b["bounds_form"] = "Bounds", "array"
         return a, b, True
+    if kind == "nanlim":
+        changed = False
+
+        def clean(v, repl):
+            nonlocal changed
+            out_ = []
+            for t in v:
+                if isinstance(t, float) and math.isnan(t):
+                    out_.append(repl)
+                    changed = True
+                else:
+                    out_.append(t)
+            return out_
+        b["lb"], b["ub"] = clean(b["lb"], -math.inf), clean(b["ub"], math.inf)
+        for Lb in b["lin"]:
+            Lb["lb"], Lb["ub"] = clean(Lb["lb"], -math.inf), clean(Lb["ub"], math.inf)
+        for Nb in b["nl"]:
+            if "lb" in Nb:
+                Nb["lb"], Nb["ub"] = clean(Nb["lb"], -math.inf), clean(Nb["ub"], math.inf)
+        # (NaN coefficients are left to C17 / C02: cobyqa turns them into +0.0 after negating the rows, the
+        # restated zeros become -0.0, and the sign of a zero changes the rounding of the factorisations)
+        return a, b, changed
     if kind == "forms":
         a["bounds_form"], a["x0_form"] = "Bounds", "array"
         for L in a["lin"]:
@@ -420,7 +449,7 @@ def run_case(spec):
         lin_clause(spec, out)
         return out
     base = dec(copy.deepcopy(spec["base"]))
-    sa, sb, changed = restate(kind, base, spec.get("forms"))
+    sa, sb, changed = restate(kind, base, spec.get("forms") if kind == "forms" else spec.get("probe"))
     if not changed:
         out.label("unchanged:" + kind)
         return out
